@@ -256,7 +256,8 @@ static int ref_single(const av_t &a, const av_t &b)
         case 'f': return (a.val.f > b.val.f) - (a.val.f < b.val.f);
         case 'd': return (a.val.d > b.val.d) - (a.val.d < b.val.d);
         case 't': if(a.val.t == 1 || b.val.t == 1) return a.val.t == b.val.t ? 0 : a.val.t == 1 ? -1 : 1; return (a.val.t > b.val.t) - (a.val.t < b.val.t);
-        case 's': case 'S': return sgn(strcmp(a.val.s, b.val.s));
+        case 's': case 'S': if(!a.val.s || !b.val.s) return 2;    // an unset string: the statement fixes no position for it
+                            return sgn(strcmp(a.val.s, b.val.s));
         case 'b': { int m = a.val.b.len < b.val.b.len ? a.val.b.len : b.val.b.len; int c = memcmp(a.val.b.data, b.val.b.data, m); if(c) return sgn(c); return (a.val.b.len > b.val.b.len) - (a.val.b.len < b.val.b.len); }
         default: return 2;
     }
@@ -370,6 +371,8 @@ static void run_singles(Rng &r)
     char t = "ihfdtsSbc"[r.below(9)];
     std::vector<av_t> pool;
     for(int i = 0; i < 8; ++i) pool.push_back(gen_scalar(r, t));
+    // an unset string (rtosc_arg_val_null) next to the empty string: whatever their order, cmp and eq have to agree
+    if((t == 's' || t == 'S') && r.chance(0.5)) { av_t u = mk(t); u.val.s = NULL; pool.push_back(u); av_t e = mk(t); e.val.s = ""; pool.push_back(e); count("singles.unset_string"); }
     std::string desc = std::string("singles of type ") + t;
     describe_case(desc);
     for(auto &a : pool) for(auto &b : pool) {
@@ -377,8 +380,9 @@ static void run_singles(Rng &r)
         int c = lcmp(va, vb), e = leq(va, vb), rs = ref_single(a, b);
         count("pairs.reference_order");
         std::string d = "a={" + render_flat(va) + "} b={" + render_flat(vb) + "}";
-        if(sgn(c) != rs) fail("documented_order", pair_tags(va, vb), d, std::to_string(c), fmt("sign %d", rs));
+        if(rs != 2 && sgn(c) != rs) fail("documented_order", pair_tags(va, vb), d, std::to_string(c), fmt("sign %d", rs));
         if((c == 0) != (e != 0)) fail("cmp_eq_agree", pair_tags(va, vb), d, fmt("cmp=%d eq=%d", c, e), "cmp==0 exactly when eq");
+        if(sgn(c) != -sgn(lcmp(vb, va))) fail("antisymmetry", pair_tags(va, vb), d, fmt("cmp(a,b)=%d cmp(b,a)=%d", c, lcmp(vb, va)), "opposite signs");
     }
     // with a tolerance option: whatever the tolerance, "cmp returns 0 exactly when eq reports equal", and the order is antisymmetric
     if(t == 'f' || t == 'd') {
